@@ -9,7 +9,7 @@ fn build() -> Vec<Box<dyn Property>> {
         let mut v: Vec<Box<dyn Property>> = vec![];
         for id in ["C16", "C20"] {
             for s in stages(id) {
-                if s.prop.stage() != "large" {
+                if vcore::props::registry::fuzzable(&s) {
                     v.push(s.prop);
                 }
             }
